@@ -146,11 +146,14 @@ def _run(ctx):
         _cache["longday"] = (-9, "", "timeout: LangTag did not return within %d s" % TIMEOUT)
     p = subprocess.run([vh, "sharedstate", core.REPO], stdout=subprocess.PIPE, stderr=subprocess.PIPE, text=True, timeout=300)
     _cache["loopvars"] = [l.split() for l in p.stdout.split("\n") if l.startswith("LOOPVAR ")] if p.returncode == 0 else None
+    _cache["bounds"] = [l.split() for l in p.stdout.split("\n") if l.startswith("BOUND ")]
     # (b) batches
     ex = B.setup_examples(ctx)
     B.make_failing_inputs(ex)
     # texture spellings: soil files with one id per spelling; every case through the real Input/Hydro in-process
     B.make_variant_inputs(ex)
+    B.make_gap_weather(ex)
+    B.make_long_irrigation(ex)
     # lines sharing input files and ids, differing in one interpretation key ("same results alone or together")
     _cache["ik"] = B.run_interp_groups(binary, ex, rng, concs=(1, 2, 8) if ctx.thorough else (1, 2), timeout=TIMEOUT)
     tcases = B.make_texture_inputs(ex, rng, 120 if ctx.thorough else 30)
@@ -162,7 +165,10 @@ def _run(ctx):
     tobs = _texture_harness(vh, ex, bf, len(tcases))
     _cache.update(tcases=tcases, tobs=tobs)
     pool = dict(B.VALID); pool.update(B.FAILING); pool.update(B.TEXTURE_FAILING); pool.update(B.TEXTURE_VALID); pool.update(B.VARIANTS)
-    variants = list(B.VARIANTS)          # every listed class under the other configurations (ex3, rue, zuc, bulk, MUN)
+    pool.update(B.GAPS); pool.update(B.LONG_IRRIGATION)
+    # every listed class under the other configurations (ex3, rue, zuc, bulk, MUN) + weather gaps on the boundaries of years / of the file
+    variants = list(B.VARIANTS) + list(B.GAPS)
+    longk = list(B.LONG_IRRIGATION)      # valid line that outgrows the irrigation slices (> 1200 events)
     vkeys = list(B.VALID); rng.shuffle(vkeys)
     valid = vkeys[:(8 if ctx.thorough else 4)]
     if "pred" not in valid:
@@ -171,7 +177,7 @@ def _run(ctx):
     classes = list(B.FAILING) + list(B.TEXTURE_FAILING)
     solo = {}
     jobs = [lambda k=k: (k, B.run_batch(binary, ex, "solo_" + re.sub(r"\W", "_", k), [k], pool, 1, 4, timeout=TIMEOUT))
-            for k in valid + classes + variants]
+            for k in valid + classes + variants + longk]
     for k, e in B.parallel(jobs, 6):
         solo[k] = e
     mixed, jobs = [], []
@@ -192,7 +198,11 @@ def _run(ctx):
             batch = vs[:pos] + [v] + vs[pos:]
             jobs.append(lambda v=v, c=c, batch=batch, pos=pos: B.run_batch(
                 binary, ex, "v_%s_p%d_c%d" % (re.sub(r"\W", "_", v), pos, c), batch, pool, c, rng.choice((1, 4, 16)), timeout=TIMEOUT))
-    batch = variants + valid
+    for c in (1, 8):
+        vs = rng.sample(valid, 2) + [rng.choice(classes)]
+        batch = vs[:1] + longk + vs[1:]
+        jobs.append(lambda c=c, batch=batch: B.run_batch(binary, ex, "long_c%d" % c, batch, pool, c, 4, timeout=TIMEOUT))
+    batch = variants + valid + longk
     rng.shuffle(batch)
     jobs.append(lambda batch=batch: B.run_batch(binary, ex, "allvar_c8", batch, pool, 8, 4, timeout=TIMEOUT))
     for c in concs + ((3, 16) if ctx.thorough else ()):
@@ -214,6 +224,14 @@ def _run(ctx):
         except BuildError as e:
             _cache["race_build_error"] = str(e)[-600:]
     mixed = B.parallel(jobs, 6)
+    # how many irrigation events the long-irrigation line booked (management output of its solo run)
+    nev = 0
+    ld = os.path.join(solo[longk[0]].root, "l0")
+    if os.path.isdir(ld):
+        for fn in os.listdir(ld):
+            if fn.startswith("M"):
+                nev = sum(1 for l in open(os.path.join(ld, fn), errors="replace") if "rrigat" in l)
+    _cache["irrigation_events"] = nev
     after = B.tree_snapshot(ex)
     _cache.update(solo=solo, mixed=mixed, pool=pool, valid=valid, classes=classes + variants, ex=ex, new_files=sorted(after - before))
     return _cache
@@ -302,6 +320,21 @@ def correspond(ctx):
         for t in lv:
             if t[1] == "STEPS" and sub and int(t[3].split(":")[1]) >= min(sub):
                 c.mismatches.append({"kind": "loopvars", "what": "STEPS assigned inside/after the sub-step loop header", "site": " ".join(t)})
+    # ---- (d) fixed sizes an event counter can run into (regenerated inventory) and what the run set reaches
+    bounds = {}
+    for bt in r.get("bounds") or []:
+        bounds.setdefault(int(bt[3]), []).append(bt[2])
+    make_sizes = sorted({int(bt[3]) for bt in (r.get("bounds") or []) if bt[1] == "make"})
+    ctx.extra["irrigation_events_of_long_run"] = r["irrigation_events"]
+    ctx.extra["fixed_sizes"] = {str(n): {"names": sorted(set(v))[:12] + (["..."] if len(set(v)) > 12 else []),
+                                         "reached_by_the_run_set": ("yes: long-irrigation line books %d events" % r["irrigation_events"]) if n in make_sizes and r["irrigation_events"] >= n
+                                         else ("yes: every run over a leap year uses day 366" if 366 <= n <= 368 else "no (not exercised up to the bound by C11's runs)")}
+                                for n, v in sorted(bounds.items())}
+    if make_sizes and r["irrigation_events"] < max(make_sizes):
+        c.mismatches.append({"kind": "bounds", "what": "the long-irrigation line no longer reaches the initial length of the irrigation slices",
+                             "events": r["irrigation_events"], "initial_lengths": make_sizes})
+    if make_sizes != [1200]:
+        c.notes.append("make([]T, n) sites changed: %s (the long-irrigation line is built for 1200)" % make_sizes)
     # ---- (b) dispatcher prediction from solo outcomes
     errs = {}
     for k, e in r["solo"].items():
